@@ -9,9 +9,26 @@ Local Open Scope Z_scope.
 Record copts := mkCOpts { co_track : list N; co_vehicle : list N; co_tags : list (list N); co_note : list N;
                           co_diff : Z; co_posfix : Z; co_start : option Z; co_predict : nat }.
 
+(* c_table: for predictors other than nil / PiecewiseLinear (co_predict >= 2) the harness fits a
+   FRESH predictor of the configured type on every channel and lists (channel readings, x, value)
+   for every query; the model then uses that oracle as the fitted predictor. *)
 Record case := mkCase {
   c_opts : copts; c_vehicle : list N; c_laps : list lap; c_geod : list (list f64);
+  c_table : list (list f64 * f64 * f64);
   c_class : nat; c_db : list llap }.
+
+Fixpoint flist_eqb (a b : list f64) : bool :=
+  match a, b with
+  | [], [] => true
+  | x :: a', y :: b' => (x =? y) && flist_eqb a' b'
+  | _, _ => false
+  end.
+Definition oracle_pred (table : list (list f64 * f64 * f64)) : predictor :=
+  fun _ ys x =>
+    match find (fun '(ys', x', _) => (x =? x') && flist_eqb ys ys') table with
+    | Some (_, _, v) => v
+    | None => nan_bits
+    end.
 
 Definition opts_of (c : copts) : opts :=
   mkOpts (s_of_bytes (co_track c)) (s_of_bytes (co_vehicle c)) (map s_of_bytes (co_tags c))
@@ -56,7 +73,8 @@ Fixpoint zlist_eqb (a b : list Z) : bool :=
   end.
 
 Definition check (p : proj) (c : case) : verdict :=
-  let m := convert (opts_of (c_opts c)) (s_of_bytes (c_vehicle c)) (c_laps c) (c_geod c) in
+  let m := (if Nat.leb 2 (co_predict (c_opts c)) then convert_with (oracle_pred (c_table c)) else convert)
+             (opts_of (c_opts c)) (s_of_bytes (c_vehicle c)) (c_laps c) (c_geod c) in
   match m, c_class c with
   | Err e, _ => if String.eqb e "?" then VO else (if Nat.eqb (c_class c) 1 then VA else VV)
   | Panic e, cls =>
